@@ -109,9 +109,19 @@ def _errors():
     return (jinja2.TemplateRuntimeError, TypeError, ValueError, KeyError, IndexError, AttributeError, ZeroDivisionError, OverflowError)
 
 
-def make_env(sources, mode, autoescape_on=True):
-    """Environment for one mode; ``autoescape_on=False`` builds the matching *disabled* configuration (C16's other side)."""
+ENV_OPTS = [{"async": False, "sandbox": 0}] * 6 + [{"async": True, "sandbox": 0}] * 2 + [{"async": False, "sandbox": 1}, {"async": False, "sandbox": 2},
+                                                                                   {"async": True, "sandbox": 1}]
+
+
+def make_env(sources, mode, autoescape_on=True, opts=None):
+    """Environment for one mode; ``autoescape_on=False`` builds the matching *disabled* configuration (C16's other side).
+    ``opts`` = {"async": bool, "sandbox": 0 | 1 (SandboxedEnvironment) | 2 (ImmutableSandboxedEnvironment)}; templates of an
+    async environment are rendered through the sync API (Template.generate drives generate_async)."""
     import jinja2
+    import jinja2.sandbox
+
+    opts = opts or {}
+    cls = (jinja2.Environment, jinja2.sandbox.SandboxedEnvironment, jinja2.sandbox.ImmutableSandboxedEnvironment)[opts.get("sandbox", 0)]
 
     m = mode["m"]
     if m == "static":
@@ -127,7 +137,7 @@ def make_env(sources, mode, autoescape_on=True):
         ae = bool(autoescape_on)
     else:
         ae = False
-    env = jinja2.Environment(loader=jinja2.DictLoader(sources), autoescape=ae, extensions=["jinja2.ext.loopcontrols"])
+    env = cls(loader=jinja2.DictLoader(sources), autoescape=ae, extensions=["jinja2.ext.loopcontrols"], enable_async=bool(opts.get("async")))
     env.policies["json.dumps_function"] = _dumps
     if m == "volatile":
         env.globals["fl"] = mode["flag"] if autoescape_on else False
@@ -345,9 +355,13 @@ def check_esc(case, known=False):
     allowed = _errors()
     for mode in case["modes"]:
         sources, entry, entry_src = mode_sources(templates, mode)
-        env = make_env(sources, mode)
+        env = make_env(sources, mode, True, case.get("env"))
         text, err = stream(env, entry, entry_src, data, allowed)
-        where = "mode %s" % _mode_name(mode)
+        where = "mode %s%s" % (_mode_name(mode), " env %s" % case["env"] if case.get("env") else "")
+        if case.get("env", {}).get("async"):
+            labels.add("env:async")
+        if case.get("env", {}).get("sandbox"):
+            labels.add("env:sandbox")
         clean = scan(text, where, sources)
         if amp_rule:
             tracer(clean, tokens, where, sources)
@@ -365,11 +379,16 @@ _TEXT_MAP = str.maketrans({"<": "(", ">": ")", "&": "+", "=": "~", '"': "!", "'"
 _WORDS = {"X": "X<b>zq801z&", "yy": 'y"zq802z>y', "Zed": "Z&zq803z<ed", "<q>": "<q zq804z>&lt;", "a b": 'a>zq805z&amp;"b'}
 
 
-def enrich_ir(node):
-    """Copy of a tsets IR with template text made metacharacter-free and the word constants made metacharacter-rich."""
+def enrich_ir(node, ae="true"):
+    """Copy of a tsets IR with template text made metacharacter-free and the word constants made metacharacter-rich.
+    tsets' own {% autoescape flag %} sections become {% autoescape true %} (C15 never runs disabled regions) or, with
+    ae="strip", {% if true %} (C16 compares a whole-template on / off setting)."""
     if isinstance(node, dict):
-        return {k: (v if k == "broken" else enrich_ir(v)) for k, v in node.items()}
+        return {k: (v if k in ("broken", "autoescape") else enrich_ir(v, ae)) for k, v in node.items()}
     if isinstance(node, list):
+        if len(node) == 3 and node[0] == "autoescape" and isinstance(node[1], bool):
+            body = enrich_ir(node[2], ae)
+            return ["autoescape", True, body] if ae == "true" else ["if", ["c", True], body, []]
         if len(node) == 2 and node[0] == "text" and isinstance(node[1], str):
             return ["text", node[1].translate(_TEXT_MAP)]
         if len(node) == 2 and node[0] == "comment":
@@ -378,7 +397,7 @@ def enrich_ir(node):
             return ["c", _WORDS.get(node[1], node[1])]
         if len(node) == 2 and node[0] == "probe":
             return list(node)  # prints name={{ name is defined }}:...: the '=' is followed by True / False, never by data
-        return [enrich_ir(x) for x in node]
+        return [enrich_ir(x, ae) for x in node]
     return node
 
 
@@ -471,8 +490,8 @@ def fit_modes(templates, ms, keep=1):
 
 
 def esc_cases(size):
-    return st.builds(lambda p, d, m, keep: {"kind": "esc", "templates": p["templates"], "data": d, "modes": fit_modes(p["templates"], m, keep)},
-                     escgen.programs(neutral=False, size=size), escgen.datas(), modes(), st.integers(0, 5))
+    return st.builds(lambda p, d, m, keep, e: {"kind": "esc", "templates": p["templates"], "data": d, "modes": fit_modes(p["templates"], m, keep), "env": e},
+                     escgen.programs(neutral=False, size=size), escgen.datas(), modes(), st.integers(0, 5), st.sampled_from(ENV_OPTS))
 
 
 def tset_cases(thorough):
@@ -522,7 +541,7 @@ def floors(total, tier):
     missing = [f for f in REQUIRED_FILTERS if lab.get("f:" + f, 0) < 3]
     if missing:
         return "filters (almost) never generated: %s" % ", ".join(missing)
-    for need in ("mode:static", "mode:select", "mode:string", "mode:region", "mode:volatile", "mode:segments", "mode:nested", "s:macro", "s:callblock", "s:caller",
+    for need in ("mode:static", "mode:select", "mode:string", "mode:region", "mode:volatile", "mode:segments", "mode:nested", "env:async", "env:sandbox", "s:macro", "s:callblock", "s:caller",
                  "s:setblock", "s:filter", "s:include", "s:import", "s:from", "s:block", "s:super", "s:self", "s:recursive", "str_method",
                  "op:~", "op:+", "op:*", "op:%", "amp_rule", "tset:inherit", "tset:modules"):
         if lab.get(need, 0) < 10:
